@@ -270,11 +270,15 @@ def gen_recipe(
             cl = [ch.pick(classes) for _ in range(ch.i(0, 3))]
             attrs.append([None, None, 'class', ' '.join(cl) if xml else cl])
             used.add('class')
-        for _ in range(ch.i(0, 2)):
+        for _ in range(ch.i(0, 2) + (1 if xml and ch.i(0, 3) == 0 else 0)):
             an = ch.pick(attr_names)
-            if an.lower() in used:
+            if xml and ch.i(0, 3) == 0:
+                # XML names are case-sensitive: `title`, `Title` and `TITLE` are three attributes and may sit on one element
+                an = ch.pick((an.upper(), an.capitalize()))
+            key = an if xml else an.lower()
+            if key in used:
                 continue
-            used.add(an.lower())
+            used.add(key)
             attrs.append([None, None, an, attr_value(ch, attr_values, extra_text_values and api)])
         ns = ch.pick(ns_choices)
         prefix = ch.pick(prefix_choices) if ns else None
